@@ -442,3 +442,96 @@ def m_slice_iter_next(I, r):
 
 @model(r'core::slice::<impl \[\(QualifierKey, SmartString<LazyCompact>\)\]>::iter')
 def m_slice_iter(I, r): return QIter(r.get() if isinstance(r, Ref) else r)
+
+# ---- package types (spike: python unicode tables stand in for tables dumped from real std/unicase)
+@model(r'UniCase::<&str>::ascii')
+def m_unicase_ascii(I, s): return Adt('UniCase', 'struct', [s])
+
+@model(r'UniCase::<&str>::new')
+def m_unicase_new(I, s): return Adt('UniCase', 'struct', [s])
+
+def ascii_lower(I, x):
+    if isinstance(x, int): return x + 0x20 if 0x41 <= x <= 0x5A else x
+    return z3.If(z3.And(z3.UGE(x, 0x41), z3.ULE(x, 0x5A)), x + 0x20, x)
+
+@model(r'phf::Map::<UniCase<&str>, package_type::PackageType>::get::<UniCase<&str>>')
+def m_phf_get(I, mp, key):
+    mapv = mp.get()
+    q = S(key.get().fields[0])
+    entries = mapv.fields[2]
+    while isinstance(entries, Ref): entries = entries.get()
+    # spike: ASCII queries only (non-ASCII needs the unicase folding table)
+    for b in q:
+        if not in_range(I.ctx, b, 0, 0x7F): return NONE()
+    for i, e in enumerate(entries):
+        k = S(e[0].fields[0])
+        if len(k) != len(q): continue
+        if all(beq(I.ctx, ascii_lower(I, x), y) for x, y in zip(q, k)):
+            return Some(Ref(e, 1))
+    return NONE()
+
+@model(r'Option::<&package_type::PackageType>::copied')
+def m_copied(I, o):
+    if o.variant == 'None': return o
+    v = o.fields[0].get()
+    return Some(Adt(v.ty, v.variant, v.fields))
+
+@model(r'char::methods::<impl char>::is_ascii')
+def m_char_is_ascii(I, r):
+    c = r.get() if isinstance(r, Ref) else r
+    return c < 0x80 if isinstance(c, int) else z3.ULT(c, 0x80)
+
+UPPER = [c for c in range(0x80, 0x110000) if not (0xD800 <= c < 0xE000) and chr(c).isupper() and chr(c).lower() != chr(c)]
+LOWERMAP = {c: [ord(x) for x in chr(c).lower()] for c in range(0x80, 0x110000) if not (0xD800 <= c < 0xE000) and chr(c).lower() != chr(c)}
+
+def ranges(cs):
+    out = []
+    for c in sorted(cs):
+        if out and out[-1][1] == c - 1: out[-1][1] = c
+        else: out.append([c, c])
+    return out
+UPPER_R = ranges(UPPER)
+
+@model(r'char::methods::<impl char>::is_uppercase')
+def m_is_uppercase(I, c):
+    if isinstance(c, int): return (0x41 <= c <= 0x5A) or c in set(UPPER)
+    return z3.Or([z3.And(z3.UGE(c, 0x41), z3.ULE(c, 0x5A))] + [z3.And(z3.UGE(c, lo), z3.ULE(c, hi)) for lo, hi in UPPER_R])
+
+# group lowercase mapping by (delta, len)
+CLASSES = {}
+for c, m in LOWERMAP.items():
+    key = ('d', m[0] - c) if len(m) == 1 else ('m', tuple(m))
+    CLASSES.setdefault(key, []).append(c)
+CLASSES_R = [(k, ranges(v)) for k, v in CLASSES.items()]
+
+_old_tl = None
+def m_to_lowercase2(I, c):
+    if isinstance(c, int): return ListIt([ord(x) for x in chr(c).lower()])
+    if I.ctx.decide(z3.ULT(c, 0x80)):
+        if I.ctx.decide(z3.And(z3.UGE(c, 0x41), z3.ULE(c, 0x5A))): return ListIt([c + 0x20])
+        return ListIt([c])
+    for key, rs in CLASSES_R:
+        cond = z3.Or([z3.And(z3.UGE(c, lo), z3.ULE(c, hi)) for lo, hi in rs])
+        if I.ctx.decide(cond):
+            return ListIt([c + key[1]]) if key[0] == 'd' else ListIt(list(key[1]))
+    return ListIt([c])
+interp.MODELS[:] = [(p, f) for p, f in interp.MODELS if f.__name__ != 'm_to_lowercase']
+interp.MODELS.append((r'char::methods::<impl char>::to_lowercase', m_to_lowercase2))
+
+def encode_char(I, c):
+    if isinstance(c, int): return list(chr(c).encode())
+    ctx = I.ctx
+    def ex(hi, lo): return z3.simplify(z3.Extract(hi, lo, c))
+    if ctx.decide(z3.ULT(c, 0x80)): return [ex(7, 0)]
+    if ctx.decide(z3.ULT(c, 0x800)): return [z3.simplify(0xC0 | z3.ZeroExt(3, ex(10, 6))), z3.simplify(0x80 | z3.ZeroExt(2, ex(5, 0)))]
+    if ctx.decide(z3.ULT(c, 0x10000)): return [z3.simplify(0xE0 | z3.ZeroExt(4, ex(15, 12))), z3.simplify(0x80 | z3.ZeroExt(2, ex(11, 6))), z3.simplify(0x80 | z3.ZeroExt(2, ex(5, 0)))]
+    return [z3.simplify(0xF0 | z3.ZeroExt(5, ex(20, 18))), z3.simplify(0x80 | z3.ZeroExt(2, ex(17, 12))), z3.simplify(0x80 | z3.ZeroExt(2, ex(11, 6))), z3.simplify(0x80 | z3.ZeroExt(2, ex(5, 0)))]
+
+@model(r'<FlatMap<Chars, ToLowercase, \{closure@.*\}> as Iterator>::collect::<SmartString<LazyCompact>>')
+def m_collect_ss(I, it):
+    out = []
+    while True:
+        c = it.next(I)
+        if c is None: break
+        out.extend(encode_char(I, c))
+    return StringBuf(out)
